@@ -360,6 +360,9 @@ func (c *vf10Client) deadlines() string {
 		}
 	}
 	if c.ep.SetupDone() && c.ep.SetupErr() == nil {
+		if wd := c.n.WriteDeadline(wire.A); !wd.IsZero() {
+			return fmt.Sprintf("VIOL[c10-scramblesuit-deadline]: Dial succeeded and a write deadline (%v) is still armed: every Write fails once the handshake timeout has passed", wd)
+		}
 		if last := dl[len(dl)-1]; !last.T.IsZero() {
 			return fmt.Sprintf("VIOL[c10-scramblesuit-deadline]: Dial succeeded and the last deadline call is %v, not the zero time: a stale handshake timer stays armed", last.T)
 		}
